@@ -113,6 +113,20 @@ def run(prop, tier, seed, known):
                 fails.append('evaluate(): total error is not substitution + miss + false alarm by name: %s' % {k_: round(float(v), 4) for k_, v in ev.items()})
             if len(fails) > 5:
                 break
+        # a side without any frame is valid: an empty estimate misses everything (miss = total = 1 when the reference has pitches), an empty
+        # reference scores 0 throughout
+        rt_ = np.array([0.0, 0.25, 0.5])
+        rf_ = [np.array([440.0]), np.array([]), np.array([220.0, 330.0])]
+        for what_, args_, want_ in (('empty estimate', (rt_, rf_, np.array([]), []), [0.0, 0.0, 0.0, 0.0, 1.0, 0.0, 1.0] * 2),
+                                    ('empty reference', (np.array([]), [], rt_, rf_), [0.0] * 14),
+                                    ('both sides empty', (np.array([]), [], np.array([]), []), [0.0] * 14)):
+            n += 1
+            try:
+                g_ = [float(x) for x in M.metrics(*args_)]
+                if any(abs(a_ - b_) > 1e-12 for a_, b_ in zip(g_, want_)):
+                    fails.append('metrics with an %s = %s, frame-by-frame spec gives %s' % (what_, g_, want_))
+            except Exception as ex:
+                fails.append('metrics raised %s on a valid input (%s)' % (type(ex).__name__, what_))
     bounded = [dict(name='multipitch.metrics / evaluate / resample_multipitch / compute_num_true_positives vs frame-by-frame specification and the C18 identities',
                     bound='%d random lattice inputs (<=5 frames, <=3 pitches per frame, unsorted frames; same / shifted / different-hop / disjoint / longer time bases; 3 windows)' % n,
                     cases=n, exhaustive=False, failures=fails[:4], wall_s=round(time.time() - t0, 2))]
